@@ -6,7 +6,9 @@ import re
 import verif
 
 RULE = ("--rate strings from a grammar (count classes 1, small, mid, large, huge, round; windows none, s, Ns, Nms, ms, "
-        "Nus, Nm, N.Ns, NmNs) parsed by the real parseRateLimit; per limiter 2..120 Take calls on a fake clock: serial "
+        "Nus, Nm, N.Ns, NmNs) parsed by the real parseRateLimit; fractional-window stage: windows 0.x / .x / n.x / n / "
+        "unit-only over s, ms, us, m, 60..299 Takes by one caller on a fake clock (and one application-engine run on the "
+        "real clock), judged against the (count, window) the raw string denotes, computed exactly by the check; per limiter 2..120 Take calls on a fake clock: serial "
         "caller (gaps: back-to-back, around perRequest, long idle) or fully scripted readings (also backwards); "
         "wrapper op sequences (mixed / reads-only / writes-only / scans-only) with a counting limiter; composed "
         "sender+receiver runs; application-engine runs on the real clock. Non-trivial = limiter run with at least "
@@ -17,11 +19,69 @@ CODES = {1: "the real limiter's (clock reading, returned time, sleep) sequence d
 SLACK = 10
 
 
+UNIT_NS = {"ns": 1, "us": 10 ** 3, "\u00b5s": 10 ** 3, "\u03bcs": 10 ** 3, "ms": 10 ** 6, "s": 10 ** 9, "m": 60 * 10 ** 9,
+           "h": 3600 * 10 ** 9}
+
+
+def exact_rate(rate_str):
+    """(N, W) the --rate string denotes, by exact rational arithmetic (never by the code under test): "N" = N per
+    second; "N/W" with W a duration (decimal numbers with units ns us ms s m h, several terms add up; a bare unit is
+    one unit); W in whole nanoseconds (time.Duration), fractions of a nanosecond dropped.  None for anything else."""
+    from fractions import Fraction
+    m = re.fullmatch(r"([0-9]+)(?:/(.*))?", rate_str or "")
+    if not m:
+        return None
+    n, win = int(m.group(1)), m.group(2)
+    if win is None:
+        return n, 10 ** 9
+    if win in UNIT_NS:
+        return n, UNIT_NS[win]
+    terms = re.findall(r"([0-9]*\.?[0-9]*)(ns|us|\u00b5s|\u03bcs|ms|s|m|h)", win)
+    if not terms or "".join(a + b for a, b in terms) != win:
+        return None
+    w = Fraction(0)
+    for num, unit in terms:
+        if not re.search(r"[0-9]", num):
+            return None
+        w += Fraction(num if not num.endswith(".") else num + "0") * UNIT_NS[unit]
+    return n, int(w)       # floor (w >= 0)
+
+
+def per_request(o):
+    """The interval W/N (whole ns, rounded down as the library does) the property speaks about: from the duration the
+    raw --rate string denotes; the parser's own answer only for a string outside the grammar above."""
+    ex = exact_rate(o.get("rate_str"))
+    if ex and ex[0] >= 1:
+        return ex[1] // ex[0]
+    return o["per"] // o["rate"]
+
+
+def spec_parse(o):
+    """The cheap exact pre-stage: with `--rate R` the limiter is built from what the real parseRateLimit returns for R;
+    if that is a shorter interval than the one R denotes, probes leave faster than the configured rate."""
+    ex = exact_rate(o.get("rate_str"))
+    if not ex or ex[0] < 1 or not o.get("parse_ok") or o["rate"] < 1:
+        return None
+    n, w = ex
+    if o["per"] * n >= w * o["rate"]:        # per/rate >= w/n: not faster than configured
+        return None
+    p, q = w // n, o["per"] // o["rate"]
+    if q >= p:                               # the bound is stated with whole nanoseconds, as the library computes W/N
+        return None
+    k = SLACK + 2
+    while k * q >= (k - SLACK) * p and k < 10 ** 7:
+        k += 1 + k // 8
+    return ("--rate %s denotes %d probes per %d ns (one every %d ns); the real parseRateLimit returned count %d, window %d ns, "
+            "so the limiter is built with one probe every %d ns: %d consecutive probes leave within %d ns, the rate allows "
+            "no less than (%d-1-%d)*%d = %d ns" % (o["rate_str"], n, w, p, o["rate"], o["per"], q, k + 1, k * q, k + 1, SLACK,
+                                                   p, (k - SLACK) * p))
+
+
 def spec_lim(o):
     """Spacing judged on the real limiter's own observation."""
     if not o.get("obs"):
         return None
-    p = o["per"] // o["rate"]
+    p = per_request(o)
     g = [x[1] for x in o["obs"]]
     for i, (now, grant, slept) in enumerate(o["obs"]):
         if grant < now:
@@ -90,7 +150,7 @@ def spec_eng(o):
     if o.get("class") == "eng/cancel-while-waiting":
         # the scan was interrupted (context cancelled, Ctrl-C) while more workers than the burst allowance waited in the
         # limiter: every probe the engine still starts is paced like all others
-        ts, p = o["starts"], o["per"] // o["rate"]
+        ts, p = o["starts"], per_request(o)
         for i in range(len(ts)):
             for j in range(i + 1, len(ts)):
                 if ts[j] - ts[i] < (j - i - SLACK - 3) * p:
@@ -102,7 +162,7 @@ def spec_eng(o):
         return None
     if o["scans"] != o["m"]:
         return "%d targets, %d probes started" % (o["m"], o["scans"])
-    p = o["per"] // o["rate"]
+    p = per_request(o)
     for j, t in enumerate(o["starts"]):
         if t < (j - SLACK) * p:
             return ("application scan --rate %s, %d workers: probe number %d started %d ns after the scan began; the rate "
@@ -168,7 +228,12 @@ def spec_chunk(o):
     return None     # the chunk-boundary observation is reported as information, see run()
 
 
-SPEC = {"lim": spec_lim, "wrap": spec_wrap, "pipe": spec_pipe, "eng": spec_eng, "rxlat": spec_rxlat, "e2e": spec_e2e, "chunk": spec_chunk}
+def spec_frac(o):
+    """Fractional-window stage: the measured grants first (a concrete span), then the interval the limiter was built with."""
+    return spec_lim(o) or spec_parse(o)
+
+
+SPEC = {"lim": spec_frac, "frac": spec_frac, "wrap": spec_wrap, "pipe": spec_pipe, "eng": spec_eng, "rxlat": spec_rxlat, "e2e": spec_e2e, "chunk": spec_chunk}
 
 GW = "02:00:00:c1:60:02"
 
@@ -477,8 +542,8 @@ def parse_mismatch(ctx, out, name):
 
 
 def key_of(o):
-    if o["kind"] == "lim":
-        return "lim:" + o.get("rate_str", "")
+    if o["kind"] in ("lim", "frac"):
+        return o["kind"] + ":" + o.get("rate_str", "")
     if o["kind"] == "e2e":
         return "e2e:" + o.get("cmd", "")
     return "%s:%s" % (o["kind"], o.get("class", ""))
@@ -497,19 +562,20 @@ def report(ctx, o, why, args):
     ctx.findings.append({"key": key_of(o), "what": why, "replay": path})
 
 
-def run_harness(ctx, name, seed, n, wrap, pipe, eng, k=120, timeout=600):
+def run_harness(ctx, name, seed, n, wrap, pipe, eng, k=120, timeout=600, frac=40):
     ok, _ = ctx.harness_run("c15", ["-out", name, "-seed", seed, "-n", n, "-wrap", wrap, "-pipe", pipe, "-eng", eng,
-                                    "-k", k], timeout=timeout)
+                                    "-k", k, "-frac", frac], timeout=timeout)
     return ctx.read_jsonl(os.path.join(ctx.work, name)) if ok else []
 
 
 def judge(ctx, rows, args, limit=3):
-    bad = 0
+    bad, per_kind = 0, {}
     for o in rows:
         why = SPEC[o["kind"]](o)
         if why:
             bad += 1
-            if bad <= limit:
+            per_kind[o["kind"]] = per_kind.get(o["kind"], 0) + 1
+            if per_kind[o["kind"]] <= limit:      # at most `limit` replay files per kind of run
                 report(ctx, o, why, args)
     return bad
 
@@ -535,7 +601,7 @@ def run(ctx):
     args = {"seed": ctx.seed, "k": 120}
     if ctx.harness_build("c15"):
         rows = run_harness(ctx, "cases.jsonl", ctx.seed, 200 if quick else 5000, 60 if quick else 1500,
-                           6 if quick else 40, 3 if quick else 7)
+                           6 if quick else 40, 3 if quick else 7, frac=40 if quick else 1000)
     for o in rows:
         if o["kind"] == "chunk":
             got = [x[1] for x in o["obs"]]
@@ -547,10 +613,17 @@ def run(ctx):
                 ctx.broken.append(("correspondence: the real library does not reproduce the chunk-boundary witness of "
                                    "C15_chunked_scan_refuted", json.dumps(got)))
             continue
-        if o["kind"] == "lim" and not o.get("parse_ok"):
-            ctx.count("lim:" + o["class"], ("lim", o["rate_str"]), nontrivial=False)
+        if o["kind"] in ("lim", "frac") and not o.get("parse_ok"):
+            ctx.count(o["kind"] + ":" + o["class"], (o["kind"], o["rate_str"]), nontrivial=False)
             continue
-        if o["kind"] == "lim":
+        if o["kind"] == "frac":
+            # fractional-window stage: class = window form and unit; the denoted (N, W) is computed here, exactly
+            ex = exact_rate(o["rate_str"])
+            ctx.count("frac:" + o["class"][5:], ("frac", o["rate_str"], tuple(o["in"])), nontrivial=len(o["obs"]) >= 12,
+                      sample={"rate": o["rate_str"], "denotes(count,window_ns)": ex, "parsed(count,window_ns)": [o["rate"], o["per"]],
+                              "calls": len(o["obs"]), "grant_span_ns": o["obs"][-1][1] - o["obs"][0][1],
+                              "first_calls(now,grant,slept)": o["obs"][:4]})
+        elif o["kind"] == "lim":
             p = o["per"] // o["rate"]
             cls = "lim:%s:%s:%s" % ("serial" if o["mode"] == 0 else "scripted", o["class"], "p=0" if p == 0 else "p>0")
             ctx.count(cls, ("lim", o["rate_str"], tuple(o["in"])), nontrivial=len(o["obs"]) >= 12,
@@ -586,8 +659,16 @@ def run(ctx):
                               "span_ns": o["ts"][-1] - o["ts"][0], "first_ts": o["ts"][:6]})
         rows += [o for o in erows if not o.get("err")]
     judge(ctx, rows, args)
+    # the first three findings are printed: one per kind of run first (fractional-window stage, engine, limiter, ...)
+    _kinds = ["frac", "eng", "lim"]
+    _rank, _seen = {}, {}
+    for fd in ctx.findings:
+        kd = fd["key"].split(":")[0]
+        _seen[kd] = _seen.get(kd, 0) + 1
+        _rank[id(fd)] = (_seen[kd], _kinds.index(kd) if kd in _kinds else len(_kinds))
+    ctx.findings.sort(key=lambda fd: _rank[id(fd)])
     # model vs implementation, inside Coq
-    lrows = [o for o in rows if o["kind"] == "lim" and o.get("parse_ok")]
+    lrows = [o for o in rows if o["kind"] in ("lim", "frac") and o.get("parse_ok")]
     wrows = [o for o in rows if o["kind"] == "wrap"]
     if model_ok and (lrows or wrows):
         nshards = 8 if quick else 32
@@ -602,8 +683,8 @@ def run(ctx):
             for idx, codes in parse_mismatch(ctx, out, "ML"):
                 o = l[idx]
                 at = codes[1] if len(codes) > 1 else -1
-                ctx.broken.append(("correspondence: limiter --rate %s (case lim,%d), call %d: %s" % (
-                    o["rate_str"], o["id"], at, CODES[1]),
+                ctx.broken.append(("correspondence: limiter --rate %s (case %s,%d), call %d: %s" % (
+                    o["rate_str"], o["kind"], o["id"], at, CODES[1]),
                     json.dumps({"rate": o["rate"], "per": o["per"], "mode": o["mode"], "in": o["in"][:at + 2],
                                 "obs": o["obs"][max(0, at - 2):at + 2]})[:600]))
             for idx, codes in parse_mismatch(ctx, out, "MW"):
@@ -616,8 +697,8 @@ def run(ctx):
         # a proof or a tie broke: look harder for a concrete input on which the real code breaks the property
         sd = ctx.seed + 101
         a2 = {"seed": sd, "k": 400}
-        more = run_harness(ctx, "search.jsonl", sd, 600, 300, 10, 7, k=400, timeout=300)
-        if not judge(ctx, [o for o in more if o["kind"] != "lim" or o.get("parse_ok")], a2):
+        more = run_harness(ctx, "search.jsonl", sd, 600, 300, 10, 7, k=400, timeout=300, frac=400)
+        if not judge(ctx, [o for o in more if o["kind"] not in ("lim", "frac") or o.get("parse_ok")], a2):
             deep = deep_stage(ctx)
             for o in deep:
                 if o.get("err") and o["kind"] == "e2e":
@@ -653,7 +734,8 @@ def replay(ctx, path):
                                                why or (got and got[0].get("err")) or "property holds on this run"))
         return 1 if why else 0
     ok, out = ctx.harness_run("c15", ["-out", "one.jsonl", "-seed", i["seed"], "-k", i["k"], "-n", 1000000, "-wrap", 1000000,
-                                      "-pipe", 1000, "-eng", 7, "-one", "%s,%d" % (i["kind"], i["id"])], timeout=300)
+                                      "-pipe", 1000, "-eng", 7, "-frac", i["id"] + 1 if i["kind"] == "frac" else 1,
+                                      "-one", "%s,%d" % (i["kind"], i["id"])], timeout=300)
     if not ok:
         print(out)
         return 1
